@@ -313,7 +313,7 @@ func init() {
 					return 2
 				}
 				return 3
-			}, MaxExec: schedCap(6000)}
+			}, MaxExec: schedCapT(6000, 60000)}
 		},
 		"leader n0 and follower n1 are real node copies connected over the in-memory network; for each workload (requests before the follower joins = file transfer, after = live stream; values, partial unlocks, an expiry, log rotation, a 4-record ring buffer) the leader->follower byte stream of the first replication link is cut after EVERY byte offset (one execution per offset; the follower's real 5 s reconnect runs on virtual time), plus a second cut of the re-established link at sampled offsets; once the leader is quiescent the follower's holds (key, LockId, depth, Count, Rcount, value, deadline within 2 s) must equal the leader's; distinct = distinct (links opened, follower state)",
 		[]string{"message handlers run under the default schedule (handler atomicity); cuts are at byte granularity of the leader's writes", "all workload holds are persist-immediately so that the leader's state is its persisted state", "second cuts use a fixed grid of offsets (bounded, not every pair)"})
